@@ -144,6 +144,23 @@ theorem registerAll_chans_registered {j : Nat} (h : (x.chans j).registered = tru
   | cons i t ih =>
     have h1 := createAt_chans_registered x i h
     rw [registerAll_cons, ih _ (by rw [h1]; exact h), h1]
+
+/-- a record is either untouched by `registerAll` or registered afterwards -/
+theorem registerAll_chans_cases (j : Nat) :
+    (registerAll x ids).chans j = x.chans j ∨ ((registerAll x ids).chans j).registered = true := by
+  induction ids generalizing x with
+  | nil => left; rfl
+  | cons i t ih =>
+    rw [registerAll_cons]
+    rcases ih (createAt x i) with h | h
+    · rw [h]
+      by_cases hj : j = i
+      · subst hj
+        by_cases hr : (x.chans j).registered = true
+        · left; exact createAt_chans_registered x j hr
+        · right; simp [createAt_chans, createChan, hr]
+      · left; exact createAt_chans_ne x i hj
+    · right; exact h
 end registerAll
 
 /-! ### `noLongerOpened` -/
@@ -334,9 +351,9 @@ def cbAccept (x : SideSt) (id : Nat) (v : Item) : SideSt :=
             got := upd x1.got id (x1.got id ++ [v]),
             kept := upd x1.kept id (x1.kept id ++ [v]) }
 
-/-- the failing callback's CLOSE_ERROR frame -/
+/-- the failing callback's CLOSE_ERROR frame (written while the IO is still open) -/
 def failOut (x : SideSt) (id : Nat) (e : Nat) : SideSt :=
-  if x.ioOpen then { x with out := x.out ++ [.closeErr id e], closeSent := upd x.closeSent id true } else x
+  { x with out := x.out ++ [.closeErr id e], closeSent := upd x.closeSent id true }
 
 /-- DATA frame accepted into the queue of the registered channel object -/
 def qAccept (x : SideSt) (id : Nat) (v : Item) : SideSt :=
@@ -346,43 +363,24 @@ def qAccept (x : SideSt) (id : Nat) (v : Item) : SideSt :=
 
 section failOut
 variable (x : SideSt) (id : Nat) (e : Nat)
-@[simp] theorem failOut_chans : (failOut x id e).chans = x.chans := by
-  unfold failOut; split <;> rfl
-@[simp] theorem failOut_cbs : (failOut x id e).cbs = x.cbs := by
-  unfold failOut; split <;> rfl
-@[simp] theorem failOut_count : (failOut x id e).count = x.count := by
-  unfold failOut; split <;> rfl
-@[simp] theorem failOut_finished : (failOut x id e).finished = x.finished := by
-  unfold failOut; split <;> rfl
-@[simp] theorem failOut_gwerr : (failOut x id e).gwerr = x.gwerr := by
-  unfold failOut; split <;> rfl
-@[simp] theorem failOut_ioOpen : (failOut x id e).ioOpen = x.ioOpen := by
-  unfold failOut; split <;> rfl
-@[simp] theorem failOut_sent : (failOut x id e).sent = x.sent := by
-  unfold failOut; split <;> rfl
-@[simp] theorem failOut_got : (failOut x id e).got = x.got := by
-  unfold failOut; split <;> rfl
-@[simp] theorem failOut_kept : (failOut x id e).kept = x.kept := by
-  unfold failOut; split <;> rfl
-@[simp] theorem failOut_delivered : (failOut x id e).delivered = x.delivered := by
-  unfold failOut; split <;> rfl
-@[simp] theorem failOut_cbLog : (failOut x id e).cbLog = x.cbLog := by
-  unfold failOut; split <;> rfl
-@[simp] theorem failOut_dropped : (failOut x id e).dropped = x.dropped := by
-  unfold failOut; split <;> rfl
-@[simp] theorem failOut_broken : (failOut x id e).broken = x.broken := by
-  unfold failOut; split <;> rfl
-@[simp] theorem failOut_cbWants : (failOut x id e).cbWants = x.cbWants := by
-  unfold failOut; split <;> rfl
-@[simp] theorem failOut_ended : (failOut x id e).ended = x.ended := by
-  unfold failOut; split <;> rfl
-@[simp] theorem failOut_closeSeen : (failOut x id e).closeSeen = x.closeSeen := by
-  unfold failOut; split <;> rfl
-theorem failOut_out : (failOut x id e).out = if x.ioOpen then x.out ++ [.closeErr id e] else x.out := by
-  unfold failOut; split <;> rfl
-theorem failOut_closeSent : (failOut x id e).closeSent =
-    if x.ioOpen then upd x.closeSent id true else x.closeSent := by
-  unfold failOut; split <;> rfl
+@[simp] theorem failOut_chans : (failOut x id e).chans = x.chans := rfl
+@[simp] theorem failOut_cbs : (failOut x id e).cbs = x.cbs := rfl
+@[simp] theorem failOut_count : (failOut x id e).count = x.count := rfl
+@[simp] theorem failOut_finished : (failOut x id e).finished = x.finished := rfl
+@[simp] theorem failOut_gwerr : (failOut x id e).gwerr = x.gwerr := rfl
+@[simp] theorem failOut_ioOpen : (failOut x id e).ioOpen = x.ioOpen := rfl
+@[simp] theorem failOut_sent : (failOut x id e).sent = x.sent := rfl
+@[simp] theorem failOut_got : (failOut x id e).got = x.got := rfl
+@[simp] theorem failOut_kept : (failOut x id e).kept = x.kept := rfl
+@[simp] theorem failOut_delivered : (failOut x id e).delivered = x.delivered := rfl
+@[simp] theorem failOut_cbLog : (failOut x id e).cbLog = x.cbLog := rfl
+@[simp] theorem failOut_dropped : (failOut x id e).dropped = x.dropped := rfl
+@[simp] theorem failOut_broken : (failOut x id e).broken = x.broken := rfl
+@[simp] theorem failOut_cbWants : (failOut x id e).cbWants = x.cbWants := rfl
+@[simp] theorem failOut_ended : (failOut x id e).ended = x.ended := rfl
+@[simp] theorem failOut_closeSeen : (failOut x id e).closeSeen = x.closeSeen := rfl
+theorem failOut_out : (failOut x id e).out = x.out ++ [.closeErr id e] := rfl
+theorem failOut_closeSent : (failOut x id e).closeSent = upd x.closeSent id true := rfl
 end failOut
 
 section dataPre
@@ -451,9 +449,17 @@ variable (fails : Item → Bool) (x : SideSt) (w : Bool)
 
 theorem handle_data_cb {id : Nat} (v : Item) {w' : Bool} (h : x.cbs id = some w') :
     handle fails x w (.data id v) =
-      if fails v then localClose (failOut (cbAccept x id v) id v.val) id (some v.val) false
+      if fails v then
+        if x.ioOpen then localClose (failOut (cbAccept x id v) id v.val) id (some v.val) false
+        else epilogue (cbAccept x id v) false
       else cbAccept x id v := by
-  simp only [handle, h]; rfl
+  have h0 : handle fails x w (.data id v) =
+      if fails v then
+        if (cbAccept x id v).ioOpen then localClose (failOut (cbAccept x id v) id v.val) id (some v.val) false
+        else epilogue (cbAccept x id v) false
+      else cbAccept x id v := by
+    simp only [handle, h]; rfl
+  rw [h0, cbAccept_ioOpen]
 
 theorem handle_data_q {id : Nat} (v : Item) {q : List QItem} (h : x.cbs id = none)
     (hr : (x.chans id).registered = true) (hq : (x.chans id).queue = some q) :
@@ -470,8 +476,10 @@ theorem handle_data_drop {id : Nat} (v : Item) (h : x.cbs id = none)
 
 /-- case analysis for a DATA frame -/
 theorem handle_data_cases (id : Nat) (v : Item) (P : SideSt → Prop)
-    (hcb : ∀ w', x.cbs id = some w' → fails v = true →
+    (hcb : ∀ w', x.cbs id = some w' → fails v = true → x.ioOpen = true →
       P (localClose (failOut (cbAccept x id v) id v.val) id (some v.val) false))
+    (hcbE : ∀ w', x.cbs id = some w' → fails v = true → x.ioOpen = false →
+      P (epilogue (cbAccept x id v) false))
     (hcb' : ∀ w', x.cbs id = some w' → fails v = false → P (cbAccept x id v))
     (hq : ∀ q, x.cbs id = none → (x.chans id).registered = true → (x.chans id).queue = some q →
       P (qAccept x id v))
@@ -482,7 +490,10 @@ theorem handle_data_cases (id : Nat) (v : Item) (P : SideSt → Prop)
   | some w' =>
     rw [handle_data_cb fails x w v hc]
     cases hf : fails v with
-    | true => simpa using hcb w' hc hf
+    | true =>
+      cases hio : x.ioOpen with
+      | true => simpa using hcb w' hc hf hio
+      | false => simpa using hcbE w' hc hf hio
     | false => simpa using hcb' w' hc hf
   | none =>
     by_cases hh : (x.chans id).registered = true ∧ ∃ q, (x.chans id).queue = some q
@@ -490,41 +501,76 @@ theorem handle_data_cases (id : Nat) (v : Item) (P : SideSt → Prop)
       rw [handle_data_q fails x w v hc hr hq']; exact hq q hc hr hq'
     · rw [handle_data_drop fails x w v hc hh]; exact hd hc hh
 
-theorem handle_finished (f : Frame) (hf : f ≠ .terminate) :
+/-- the frame ends the receiver thread: GATEWAY_TERMINATE, or a DATA frame whose callback fails while
+the IO is already closed (the CLOSE_ERROR cannot be written; the OSError escapes the handler) -/
+def endsReceiver (fails : Item → Bool) (x : SideSt) : Frame → Bool
+  | .terminate => true
+  | .data id v => (x.cbs id).isSome && fails v && !x.ioOpen
+  | _ => false
+
+theorem endsReceiver_false_of_ioOpen {f : Frame} (hf : f ≠ .terminate) (hio : x.ioOpen = true) :
+    endsReceiver fails x f = false := by
+  cases f <;> simp_all [endsReceiver]
+
+/-- a receiver-ending frame runs the epilogue (after the callback bookkeeping of a DATA frame) -/
+theorem handle_of_endsReceiver (f : Frame) (he : endsReceiver fails x f = true) :
+    handle fails x w f = epilogue x false ∨
+    ∃ id v, f = .data id v ∧ handle fails x w f = epilogue (cbAccept x id v) false := by
+  cases f with
+  | terminate => left; rfl
+  | data id v =>
+    right
+    simp only [endsReceiver, Bool.and_eq_true, Bool.not_eq_true', Option.isSome_iff_exists] at he
+    obtain ⟨⟨⟨w', hc⟩, hf⟩, hio⟩ := he
+    exact ⟨id, v, rfl, by rw [handle_data_cb fails x w v hc, if_pos hf, if_neg (by simp [hio])]⟩
+  | close id => simp [endsReceiver] at he
+  | closeErr id e => simp [endsReceiver] at he
+  | lastMsg id => simp [endsReceiver] at he
+  | exec id => simp [endsReceiver] at he
+
+theorem handle_finished (f : Frame) (hf : endsReceiver fails x f = false) :
     (handle fails x w f).finished = x.finished := by
   cases f with
   | data id v =>
-    apply handle_data_cases fails x w id v (fun y => y.finished = x.finished) <;> intros <;>
-      simp [cbAccept, failOut, qAccept, dataPre] <;> split <;> simp
+    apply handle_data_cases fails x w id v (fun y => y.finished = x.finished)
+    case hcbE => intro w' hc hfv hio; simp [endsReceiver, hc, hfv, hio] at hf
+    all_goals intros
+    all_goals simp [cbAccept, failOut, qAccept, dataPre]
   | close id => simp [handle]
   | closeErr id e => simp [handle]
   | lastMsg id => simp [handle]
   | exec id => simp only [handle]; split <;> simp
-  | terminate => exact absurd rfl hf
+  | terminate => simp [endsReceiver] at hf
 
-theorem handle_ioOpen (f : Frame) (hf : f ≠ .terminate) :
+theorem handle_finished_true (f : Frame) (hf : endsReceiver fails x f = true) :
+    (handle fails x w f).finished = true := by
+  rcases handle_of_endsReceiver fails x w f hf with h | ⟨_, _, _, h⟩ <;> rw [h] <;> rfl
+
+theorem handle_ioOpen (f : Frame) (hf : endsReceiver fails x f = false) :
     (handle fails x w f).ioOpen = x.ioOpen := by
   cases f with
   | data id v =>
-    apply handle_data_cases fails x w id v (fun y => y.ioOpen = x.ioOpen) <;> intros <;>
-      simp [cbAccept, failOut, qAccept, dataPre] <;> split <;> simp
+    apply handle_data_cases fails x w id v (fun y => y.ioOpen = x.ioOpen)
+    case hcbE => intro w' hc hfv hio; simp [endsReceiver, hc, hfv, hio] at hf
+    all_goals intros
+    all_goals simp [cbAccept, failOut, qAccept, dataPre]
   | close id => simp [handle]
   | closeErr id e => simp [handle]
   | lastMsg id => simp [handle]
   | exec id => simp only [handle]; split <;> simp
-  | terminate => exact absurd rfl hf
+  | terminate => simp [endsReceiver] at hf
 
-theorem handle_gwerr (f : Frame) (hf : f ≠ .terminate) :
-    (handle fails x w f).gwerr = x.gwerr := by
+/-- no frame changes the remembered connection error (only `cut` does) -/
+theorem handle_gwerr (f : Frame) : (handle fails x w f).gwerr = x.gwerr := by
   cases f with
   | data id v =>
     apply handle_data_cases fails x w id v (fun y => y.gwerr = x.gwerr) <;> intros <;>
-      simp [cbAccept, failOut, qAccept, dataPre] <;> split <;> simp
+      simp [cbAccept, failOut, qAccept, dataPre]
   | close id => simp [handle]
   | closeErr id e => simp [handle]
   | lastMsg id => simp [handle]
   | exec id => simp only [handle]; split <;> simp
-  | terminate => exact absurd rfl hf
+  | terminate => simp [handle]
 
 end handle
 
